@@ -24,7 +24,7 @@ USERS = {'alice': 1, 'bob': 2}
 BEO = enums.BatchErrorContinuationOption
 OPTS = {None: None, 'CONTINUE': BEO.CONTINUE, 'STOP': BEO.STOP, 'UNDO': BEO.UNDO}
 OPT_Z = {None: None, 'CONTINUE': 1, 'STOP': 2, 'UNDO': 3}
-ERRS = {'Response message length too large': 'ETooLarge', 'KMIP': 'EVersion', 'Future': 'EFuture', 'Stale': 'EStale', 'Asynchronous': 'EAsync', 'Undo': 'EUndo', 'Batch item ID': 'ENoBid'}
+ERRS = {'NoResponse': 'ENoResponse', 'Response message length too large': 'ETooLarge', 'KMIP': 'EVersion', 'Future': 'EFuture', 'Stale': 'EStale', 'Asynchronous': 'EAsync', 'Undo': 'EUndo', 'Batch item ID': 'ENoBid'}
 ATTR_NAMES = {'AName': 'Name', 'AGroup': 'Object Group', 'ASens': 'Sensitive', 'AAlg': 'Cryptographic Algorithm', 'AUnknown': 'Bogus Attribute'}
 ATTR_TAGS = {'AName': 'NAME', 'AGroup': 'OBJECT_GROUP', 'ASens': 'SENSITIVE', 'AAlg': 'CRYPTOGRAPHIC_ALGORITHM'}
 AES = enums.CryptographicAlgorithm.AES
@@ -232,6 +232,8 @@ def coq_case(pre, req, now, obs):
 def coq_scase(pre, req, now, obs, max_size):
     if obs['err'] == 'ETooLarge':
         ans = 'OTooLarge'
+    elif obs['err'] == 'ENoResponse':
+        ans = '(OResults [(0, None, false); (0, None, false); (0, None, false); (0, None, false); (0, None, false)])'   # no model answer looks like this
     elif obs['err'] is not None:
         ans = '(OError %s)' % obs['err']
     else:
@@ -378,6 +380,10 @@ def client_cert(cn):
     return _CERTS[cn]
 
 
+class NotSendable(Exception):
+    """The request cannot be encoded by the library's own writer (it only exists in process)."""
+
+
 class Conn:
     """What KmipSession needs of a TLS socket: the request bytes once, then end of stream."""
     def __init__(self, data, cert):
@@ -497,16 +503,25 @@ class Impl:
         from kmip.services.server import session as session_mod, engine as engine_mod
         ver = contents.ProtocolVersion(*kw['version'])
         kv = contents.protocol_version_to_kmip_version(ver) or enums.KMIPVersion.KMIP_1_2
-        rm = self.eng.build(build_items(req), max_size=max_size, **kw)
-        buf = kutils.BytearrayStream()
-        rm.write(buf, kmip_version=kv)
+        try:
+            rm = self.eng.build(build_items(req), max_size=max_size, **kw)
+            buf = kutils.BytearrayStream()
+            rm.write(buf, kmip_version=kv)
+        except Exception as e:
+            raise NotSendable(type(e).__name__)
         conn = Conn(buf.buffer, client_cert(req['user']))
         tap = EngineTap(self.eng.engine)
         engine_mod.time = self.eng.clock
         sess = session_mod.KmipSession(tap, conn, ('192.0.2.8', 5696), name='c08', enable_tls_client_auth=True, auth_settings=[])
         sess._logger.setLevel(logging.CRITICAL + 1)
-        sess._handle_message_loop()
-        assert len(conn.sent) == 1, 'the session sent %d messages for one request' % len(conn.sent)
+        try:
+            sess._handle_message_loop()
+            escaped = None
+        except Exception as e:     # KmipSession.run logs it and waits for the next request: the client gets nothing
+            escaped = type(e).__name__
+        if escaped is not None or len(conn.sent) != 1:
+            return {'error': {'reason': 'NO_RESPONSE', 'message': 'NoResponse: %s escaped from the session, %d messages sent' % (escaped, len(conn.sent))},
+                    'items': []}, None
         resp = messages.ResponseMessage()
         resp.read(kutils.BytearrayStream(conn.sent[0]), kmip_version=kv)
         size = None
@@ -672,8 +687,9 @@ def oracle(ctx, history, req_, pre_dump, obs, twin_factory=None, extra=None):
 
     if obs['err'] is not None:
         if obs['dump_before'] != obs['dump_after'] or tr:
-            v('request-error-with-effect', 'request-level error %r although %d item(s) were executed / the store changed' % (obs['err_message'], len(tr)),
-              error=obs['err'])
+            v('request-error-with-effect', 'error answer %r although %d item(s) were executed (store %s)' % (
+                obs['err_message'], len(tr), 'changed' if obs['dump_before'] != obs['dump_after'] else 'unchanged'),
+              error=obs['err'], through=('KmipSession' if extra else 'KmipEngine'))
         return found
     # one result per processed item, in order, echoing operation and batch item id
     if len(res) > len(items) or len(res) != len(tr):
@@ -736,7 +752,7 @@ class Runner:
         self.work = ctx.work
         self.cases, self.meta = [], []
         self.scases, self.smeta = [], []
-        self.snap = None
+        self.snap = self.snap2 = None
         self.main = self.twin = None
 
     def snapshot(self):
@@ -798,24 +814,33 @@ class Runner:
             pre = obs['final']
         return hits
 
+    def snapshot2(self):
+        """The setup snapshot plus the objects the raw items refer to."""
+        if self.snap2 is None:
+            im = self.fresh()
+            self.raw_prefix = [req([I_raw(n)]) for n, _ in RAW_SETUP]
+            for q in self.raw_prefix:
+                o = im.run(q)
+                assert o['err'] is None and all(x['ok'] for x in o['results']), ('raw setup failed', q, o['results'])
+            im.eng.engine._data_store.dispose()
+            self.snap2 = self.work / 'setup2.snapshot'
+            shutil.copy(im.eng.path, self.snap2)
+        return self.snap2
+
     def sweep(self, reqs, label):
         """Requests containing items outside the model: direct oracle only (no K case)."""
         ctx = self.ctx
-        im = self.fresh()
-        prefix = [req([I_raw(n)]) for n, _ in RAW_SETUP]
-        for q in prefix:
-            o = im.run(q)
-            assert o['err'] is None and all(x['ok'] for x in o['results']), ('raw setup failed', q, o['results'])
-        hits, done = [], list(prefix)
+        im = self.fresh(self.snapshot2())
+        hits, done = [], []
         for r in reqs:
             obs = im.run(r)
 
             def twin_at_same_point(pfx=list(done)):
-                t = self.fresh_twin(self.snapshot())
+                t = self.fresh_twin(self.snapshot2())
                 for q in pfx:
                     t.run(q)
                 return t
-            hits += oracle(ctx, list(done), r, None, obs, twin_at_same_point)
+            hits += oracle(ctx, self.raw_prefix + done, r, None, obs, twin_at_same_point)
             ctx.case_seen(canon(['sweep', r, [(x['ok'], x['reason']) for x in obs['results']]]), nontrivial=True)
             ctx.count('oracle_only.requests')
             for x in obs['results']:
@@ -833,8 +858,8 @@ class Runner:
             pre = im.run(q)['final']
         try:
             obs = im.run(r, wire={'max': max_size})
-        except Exception as e:
-            ctx.count('wire.not_sendable.%s' % type(e).__name__)
+        except NotSendable as e:
+            ctx.count('wire.not_sendable.%s' % e)
             return []
         if obs['err'] is not None and obs['err'].startswith('UNKNOWN'):
             ctx.count('wire.rejected_by_parser')
@@ -968,9 +993,11 @@ def gen_sweep(run, ctx):
     for n in names:
         for ver in [(1, 2), (2, 0)] + ([] if quick else [(1, 0), (1, 4)]):
             run.sweep([req([I_raw(n)], ver=ver)], 'sweep:single')
+            if quick and rng.random() < 0.5:
+                continue
             run.sweep([req([I_raw(n), rng.choice(committing), I_get(1, 'GET_ATTRIBUTES')], ver=ver, opt='CONTINUE')], 'sweep:F S R')
             run.sweep([req([rng.choice(committing), I_raw(n), rng.choice(committing)], ver=ver, opt=rng.choice([None, 'CONTINUE']))], 'sweep:S F S')
-    for _ in range(40 if quick else 600):
+    for _ in range(30 if quick else 600):
         reqs = []
         for _ in range(rng.randint(1, 3)):
             n = rng.randint(1, 4)
@@ -1034,6 +1061,12 @@ def run(ctx):
         'observation wrapper around KmipEngine._process_operation (attached from outside), deterministic key bytes for Create',
         'model scope: Batch/Store.v handlers for Create, Register, Get*, Activate, Revoke, Destroy, Modify/Set/DeleteAttribute, Query-like, unsupported '
         'operations under the `default` operation policy; other handlers are covered by the direct oracle only when generated (they are not)']
+    # findings.d/C08.json is the source of known_findings.json (merged by bin/mkmanifest); read it directly as well so
+    # that an entry recorded there is honoured before the next merge.  Nothing is written.
+    fd = Path(__file__).resolve().parents[1] / 'findings.d' / 'C08.json'
+    if fd.exists():
+        have = {f.get('id') for f in ctx.findings}
+        ctx.findings += [f for f in json.loads(fd.read_text()) if f.get('property') == 'C08' and f.get('id') not in have]
     ctx.prove('props/C08.v', extra_targets=['theories/Batch/Cases.v', 'theories/Batch/SessionCases.v'])
     runner = Runner(ctx)
     gen_all(runner, ctx)
